@@ -28,6 +28,7 @@ def _toy(leaves):
 def run():
     leaves = []
     ex = Explorer(path_seconds=0)
+    ex.stop_after_violations = 10 ** 9
     done = ex.explore(_toy(leaves))
     exp = set()
     for x, a, b, c in itertools.product(range(3), range(4), range(4), range(3)):
